@@ -41,6 +41,7 @@ type HarnessSpec struct {
 	Bounds       string   `json:"bounds"`
 	What         string   `json:"what"`
 	AllowPanics  bool     `json:"allow_panics"`
+	Synctest     bool     `json:"synctest"`
 }
 
 type CheckSpec struct {
@@ -293,7 +294,7 @@ func main() {
 			nReplays++
 			rp := filepath.Join(replayDir, fmt.Sprintf("%s_%d.json", h.Fn, nReplays))
 			rec := map[string]any{"property": id, "pkg": h.Pkg, "harness": h.Fn, "kind": f.Kind, "msg": f.Msg, "site": f.Site,
-				"vector": f.Vector, "named": f.Named, "decisions": f.Decisions, "needs_map_order": f.NeedsMapOrder}
+				"vector": f.Vector, "named": f.Named, "decisions": f.Decisions, "needs_map_order": f.NeedsMapOrder, "synctest": h.Synctest}
 			jb, _ := json.MarshalIndent(rec, "", " ")
 			os.WriteFile(rp, jb, 0o644)
 			reproduced := false
@@ -303,7 +304,7 @@ func main() {
 				if f.NeedsMapOrder {
 					repeat = 2000
 				}
-				out := native.Replay(h.Pkg, h.Fn, rp, repeat)
+				out := native.Replay(h.Pkg, h.Fn, rp, repeat, h.Synctest)
 				switch {
 				case out.Err != "":
 					detail = "native replay error: " + out.Err
@@ -395,6 +396,7 @@ func doReplay(repo, id, path string) int {
 	var rec struct {
 		Pkg, Harness, Kind, Msg string
 		NeedsMapOrder           bool `json:"needs_map_order"`
+		Synctest                bool `json:"synctest"`
 	}
 	if err := json.Unmarshal(b, &rec); err != nil {
 		fmt.Println(err)
@@ -411,7 +413,7 @@ func doReplay(repo, id, path string) int {
 		repeat = 2000
 	}
 	abs, _ := filepath.Abs(path)
-	out := native.Replay(rec.Pkg, rec.Harness, abs, repeat)
+	out := native.Replay(rec.Pkg, rec.Harness, abs, repeat, rec.Synctest)
 	fmt.Print(out.Output)
 	if out.Failed {
 		fmt.Printf("VIOLATION property=%s replay=%s\n", id, path)
